@@ -33,6 +33,8 @@ type failer struct {
 	o    *hx.Outcome
 	seen map[string]bool
 	cls  map[string]bool
+	// a Read that reaches an unreadable (mis-sized) index entry is in progress: a panic belongs to it
+	inBadRead bool
 }
 
 func newFailer(o *hx.Outcome) *failer {
@@ -84,14 +86,46 @@ func addOvf(a, b int64) (int64, bool) {
 // ---------------------------------------------------------------- read-seeker history
 
 type faultSource interface {
-	delivered() int
+	delivered() int // injected failures plus damaged chunks handed out so far
 	failNext(k int)
+	damage(id [32]byte, data []byte)
+	heal(id [32]byte, data []byte)
+	refused() [][32]byte // IDs of the damaged chunks handed out since the previous call
 }
 
-type memFaults struct{ s *dx.MemStore }
+type memFaults struct {
+	s    *dx.MemStore
+	dmg  map[desync.ChunkID]bool
+	n    int
+	last [][32]byte
+}
 
-func (m memFaults) delivered() int { return m.s.Delivered() }
-func (m memFaults) failNext(k int) { m.s.FailAt("get", m.s.Count("get")+k) }
+func newMemFaults(s *dx.MemStore) *memFaults {
+	m := &memFaults{s: s, dmg: map[desync.ChunkID]bool{}}
+	s.OnCall = func(kind string, n int, id desync.ChunkID) { // the reader history is sequential
+		if kind == "get" && m.dmg[id] {
+			m.n++
+			m.last = append(m.last, id)
+		}
+	}
+	return m
+}
+
+func (m *memFaults) delivered() int { return m.s.Delivered() + m.n }
+func (m *memFaults) failNext(k int) { m.s.FailAt("get", m.s.Count("get")+k) }
+func (m *memFaults) damage(id [32]byte, data []byte) {
+	m.dmg[id] = true
+	m.s.Put(id, data)
+}
+func (m *memFaults) heal(id [32]byte, data []byte) {
+	delete(m.dmg, id)
+	m.s.Put(id, data)
+}
+func (m *memFaults) refused() [][32]byte {
+	r := m.last
+	m.last = nil
+	return r
+}
 
 type rsStats struct {
 	nontrivial bool
@@ -105,6 +139,8 @@ func checkReadSeeker(fl *failer, rs io.ReadSeeker, l *layout, ops []Op, fs fault
 	backseek := false   // a successful seek moved the cursor backwards earlier in the history
 	afterFault := false // a fault was delivered earlier in the history
 	var rbuf []byte
+	dmg := map[[32]byte]bool{}     // IDs whose chunk is damaged in the store right now
+	refused := map[[32]byte]bool{} // IDs this reader was handed a damaged chunk for and has not read correctly since
 	note := func(format string, a ...any) {
 		if len(st.trace) < 200 {
 			st.trace = append(st.trace, fmt.Sprintf(format, a...))
@@ -119,6 +155,21 @@ func checkReadSeeker(fl *failer, rs io.ReadSeeker, l *layout, ops []Op, fs fault
 			}
 			fs.failNext(k)
 			note("%d fail next %d", i, k)
+		case "damage", "heal":
+			if op.V < 0 || op.V >= len(l.spans) || l.badID(l.ids[op.V]) {
+				continue // (a damaged chunk could by chance fit the size of a mis-sized entry with the same ID)
+			}
+			sp := l.spans[op.V]
+			real := l.blob[sp.Start : sp.Start+sp.Len]
+			if op.Op == "heal" {
+				fs.heal(l.ids[op.V], real)
+				delete(dmg, l.ids[op.V])
+			} else {
+				fs.damage(l.ids[op.V], damagedData(real, op.Kind))
+				dmg[l.ids[op.V]] = true
+				fl.class("damage:wrong-length")
+			}
+			note("%d %s entry %d %s", i, op.Op, op.V, op.Kind)
 		case "seek":
 			var base int64
 			validWhence := true
@@ -207,9 +258,27 @@ func checkReadSeeker(fl *failer, rs io.ReadSeeker, l *layout, ops []Op, fs fault
 			if avail < 0 {
 				avail = 0
 			}
+			wantLen := min(int64(len(p)), avail)
+			limit := l.readable(pos, wantLen) // bytes before the first unreadable entry
+			reachesBad := limit < wantLen
+			touchRefused, touchRefusedHealed := false, false
+			l.entries(pos, wantLen, func(c int) {
+				if refused[l.ids[c]] {
+					touchRefused = true
+					if !dmg[l.ids[c]] {
+						touchRefusedHealed = true
+					}
+				}
+			})
 			before := fs.delivered()
+			fl.inBadRead = reachesBad
 			got, err := rs.Read(p)
+			fl.inBadRead = false
 			faulted := fs.delivered() > before
+			handedDamaged := fs.refused()
+			for _, id := range handedDamaged {
+				refused[id] = true
+			}
 			note("%d read(%d) at %d -> %d,%v", i, n, pos, got, err)
 			if got < 0 || got > len(p) {
 				fl.fail("C09:readseeker:read-count", "op %d: Read(len %d) at %d returned n=%d", i, n, pos, got)
@@ -219,20 +288,42 @@ func checkReadSeeker(fl *failer, rs io.ReadSeeker, l *layout, ops []Op, fs fault
 					got = len(p)
 				}
 			}
+			// the signature names what kind of bytes were served instead of the blob's
+			served := func(plain string) string {
+				switch {
+				case len(handedDamaged) > 0:
+					return "C09:readseeker:damaged-chunk-served"
+				case touchRefused:
+					return "C09:readseeker:refused-chunk-served"
+				}
+				return plain
+			}
 			dataOK := true
-			if int64(got) > avail {
+			cmp := min(int64(got), limit, avail)
+			if reachesBad {
+				fl.class("read:mis-sized-entry")
+			}
+			if reachesBad && (int64(got) > limit || (err == nil && got == 0 && len(p) > 0) || err == io.EOF) {
 				dataOK = false
-				fl.fail("C09:readseeker:read-past-end", "op %d: Read(len %d) at %d returned %d bytes, only %d before the end (length %d)", i, n, pos, got, avail, L)
-			} else if got > 0 && !bytes.Equal(p[:got], l.blob[pos:pos+int64(got)]) {
+				fl.fail("C09:readseeker:mis-sized-entry-accepted", "op %d: Read(len %d) at %d reaches index entry %d whose size differs from the chunk stored under its ID after %d bytes, but returned %d, %v",
+					i, n, pos, l.chunkAt(pos+limit), limit, got, err)
+			} else if int64(got) > avail {
+				dataOK = false
+				fl.fail(served("C09:readseeker:read-past-end"), "op %d: Read(len %d) at %d returned %d bytes, only %d before the end (length %d)", i, n, pos, got, avail, L)
+			}
+			if cmp > 0 && !bytes.Equal(p[:cmp], l.blob[pos:pos+cmp]) {
 				dataOK = false
 				d := 0
-				for d < got && p[d] == l.blob[pos+int64(d)] {
+				for d < int(cmp) && p[d] == l.blob[pos+int64(d)] {
 					d++
 				}
-				fl.fail("C09:readseeker:wrong-bytes", "op %d: Read(len %d) at %d returned %d bytes that differ from the blob at offset %d (chunk %d): got %#x want %#x",
+				fl.fail(served("C09:readseeker:wrong-bytes"), "op %d: Read(len %d) at %d returned %d bytes that differ from the blob at offset %d (chunk %d): got %#x want %#x",
 					i, n, pos, got, pos+int64(d), l.chunkAt(pos+int64(d)), p[d], l.blob[pos+int64(d)])
 			}
-			full := int64(got) == min(int64(len(p)), avail)
+			if reachesBad && !dataOK {
+				return st // the reader has consumed bytes that do not exist: its position is meaningless now
+			}
+			full := int64(got) == wantLen
 			switch {
 			case err == nil:
 				if got == 0 && len(p) > 0 {
@@ -249,9 +340,25 @@ func checkReadSeeker(fl *failer, rs io.ReadSeeker, l *layout, ops []Op, fs fault
 					fl.fail("C09:readseeker:store-error-swallowed", "op %d: Read(len %d) at %d: the store failed during the call but it returned %d, io.EOF", i, n, pos, got)
 				}
 			default:
-				if !faulted {
+				if !faulted && !reachesBad {
 					fl.fail("C09:readseeker:spurious-error", "op %d: Read(len %d) at %d (length %d) failed without a store fault: %d, %v", i, n, pos, L, got, err)
 				}
+			}
+			if len(handedDamaged) > 0 {
+				fl.class("damage:delivered")
+			}
+			if touchRefused && !touchRefusedHealed {
+				fl.class("reread-after-refusal")
+				st.nontrivial = true
+			}
+			if touchRefusedHealed && err == nil && dataOK && full && len(handedDamaged) == 0 {
+				fl.class("reread-after-heal")
+				st.nontrivial = true
+				l.entries(pos, int64(got), func(c int) {
+					if !dmg[l.ids[c]] {
+						delete(refused, l.ids[c])
+					}
+				})
 			}
 			if faulted {
 				fl.class("fault:delivered")
@@ -373,7 +480,8 @@ type fuseVerdict struct {
 func runFuse(fl *failer, c Case, l *layout, idx desync.Index) (nontrivial bool) {
 	store := dx.NewMemStore("c09fuse")
 	store.FaultErr = faultErrOf(c.FaultErr)
-	dx.FillStore(store, l.blob, idx)
+	store.SkipVerify = !c.Verify
+	fillStore(store, l)
 
 	// indexFileHandle.read reports every failed request on os.Stderr
 	if devNull == nil {
@@ -485,174 +593,308 @@ func runFuse(fl *failer, c Case, l *layout, idx desync.Index) (nontrivial bool) 
 		}
 	}
 	var mu sync.Mutex
-	faultBy := map[uint64]int{}
+	faultBy := map[uint64]int{}                // goroutine -> failures (injected or damaged chunk) it was handed
+	dmgBy := map[uint64]int{}                  // goroutine -> damaged chunks it was handed
+	curHandle := map[uint64]int{}              // goroutine -> handle of its request in progress
+	damagedNow := map[desync.ChunkID]bool{}    // changed only between request groups
+	refusedOn := make([]map[[32]byte]bool, nh) // handle -> IDs it was handed a damaged chunk for
+	for i := range refusedOn {
+		refusedOn[i] = map[[32]byte]bool{}
+	}
 	store.OnCall = func(kind string, n int, id desync.ChunkID) {
-		if kind == "get" && failNums[n] {
+		if kind != "get" {
+			return
+		}
+		d := damagedNow[id]
+		if failNums[n] || d {
 			g := goid()
 			mu.Lock()
 			faultBy[g]++
+			if d {
+				dmgBy[g]++
+				if h, ok := curHandle[g]; ok {
+					refusedOn[h][id] = true
+				}
+			}
 			mu.Unlock()
 		}
 	}
-
-	perG := make([][]int, ng)
-	usedBy := map[int]map[int]bool{}
-	for i, r := range c.Fuse {
-		g := ((r.G % ng) + ng) % ng
-		perG[g] = append(perG[g], i)
-		h := ((r.H % nh) + nh) % nh
-		if usedBy[h] == nil {
-			usedBy[h] = map[int]bool{}
-		}
-		usedBy[h][g] = true
-	}
-	active := 0
-	for _, q := range perG {
-		if len(q) > 0 {
-			active++
-		}
-	}
-	if active >= 2 {
-		fl.class("fuse:concurrent")
-		for _, gs := range usedBy {
-			if len(gs) >= 2 {
-				fl.class("fuse:shared-handle")
-			}
-		}
-	}
+	defer func() { store.OnCall = nil }()
 
 	type result struct {
-		errno   syscall.Errno
-		data    []byte
-		fault   bool
-		gid     uint64
-		panicky any
+		errno       syscall.Errno
+		data        []byte
+		fault       bool // a failure was handed to this request
+		dmg         bool // ... a damaged chunk
+		reread      bool // touches an entry this handle was refused before, still damaged
+		rereadHeal  bool // ... healed meanwhile
+		gid         uint64
+		group       int
+		concurrent  bool
+		done        bool
+		panicky     any
+		badInFlight bool
 	}
 	results := make([]result, len(c.Fuse))
-	var wg sync.WaitGroup
-	start := make(chan struct{}) // all readers are released together
-	for g := range perG {
-		if len(perG[g]) == 0 {
-			continue
+	hOf := func(r FuseRead) int { return ((r.H % nh) + nh) % nh }
+
+	// runGroup issues the requests listed in idxs: one goroutine per G, released together, joined before it returns
+	group := 0
+	runGroup := func(idxs []int) {
+		group++
+		perG := make([][]int, ng)
+		usedBy := map[int]map[int]bool{}
+		for _, i := range idxs {
+			r := c.Fuse[i]
+			g := ((r.G % ng) + ng) % ng
+			perG[g] = append(perG[g], i)
+			h := hOf(r)
+			if usedBy[h] == nil {
+				usedBy[h] = map[int]bool{}
+			}
+			usedBy[h][g] = true
 		}
-		wg.Add(1)
-		go func(queue []int) {
-			defer wg.Done()
-			me := goid()
-			dbuf, bbuf := getBuf(), getBuf()
-			defer putBuf(dbuf)
-			defer putBuf(bbuf)
-			<-start
-			for _, i := range queue {
-				r := c.Fuse[i]
-				h := ((r.H % nh) + nh) % nh
-				size := max(0, r.Size)
-				off := max(0, r.Off)
-				res := &results[i]
-				res.gid = me
-				mu.Lock()
-				before := faultBy[me]
-				mu.Unlock()
-				func() {
-					defer func() {
-						if p := recover(); p != nil {
-							res.panicky = p
+		active := 0
+		for _, q := range perG {
+			if len(q) > 0 {
+				active++
+			}
+		}
+		if active >= 2 {
+			fl.class("fuse:concurrent")
+			for _, gs := range usedBy {
+				if len(gs) >= 2 {
+					fl.class("fuse:shared-handle")
+				}
+			}
+		}
+		var wg sync.WaitGroup
+		start := make(chan struct{}) // all readers are released together
+		for g := range perG {
+			if len(perG[g]) == 0 {
+				continue
+			}
+			wg.Add(1)
+			go func(queue []int) {
+				defer wg.Done()
+				me := goid()
+				dbuf, bbuf := getBuf(), getBuf()
+				defer putBuf(dbuf)
+				defer putBuf(bbuf)
+				<-start
+				for _, i := range queue {
+					r := c.Fuse[i]
+					h := hOf(r)
+					size := max(0, r.Size)
+					off := max(0, r.Off)
+					res := &results[i]
+					res.gid, res.group, res.concurrent = me, group, active >= 2
+					wantLen := min(int64(size), max(l.length-off, 0))
+					mu.Lock()
+					curHandle[me] = h
+					before, dbefore := faultBy[me], dmgBy[me]
+					l.entries(off, wantLen, func(c int) {
+						if refusedOn[h][l.ids[c]] {
+							if damagedNow[l.ids[c]] {
+								res.reread = true
+							} else {
+								res.rereadHeal = true
+							}
+						}
+					})
+					mu.Unlock()
+					func() {
+						defer func() {
+							if p := recover(); p != nil {
+								res.panicky = p
+							}
+						}()
+						if cap(dbuf) < size {
+							dbuf, bbuf = make([]byte, size), make([]byte, size)
+						}
+						dest := dbuf[:size]
+						for j := range dest {
+							dest[j] = 0xA5
+						}
+						rr, errno := doRead(handles[h], dest, off)
+						res.errno = errno
+						if errno == 0 && rr != nil {
+							b, st := rr.Bytes(bbuf[:size])
+							if st != fuse.OK {
+								res.errno = syscall.Errno(st)
+							}
+							res.data = append([]byte(nil), b...)
+							rr.Done()
 						}
 					}()
-					if cap(dbuf) < size {
-						dbuf, bbuf = make([]byte, size), make([]byte, size)
+					mu.Lock()
+					res.fault = faultBy[me] > before
+					res.dmg = dmgBy[me] > dbefore
+					delete(curHandle, me)
+					if res.errno == 0 && res.panicky == nil && !res.dmg && res.rereadHeal {
+						l.entries(off, wantLen, func(c int) { // read again after the heal: the refusal is history
+							if !damagedNow[l.ids[c]] {
+								delete(refusedOn[h], l.ids[c])
+							}
+						})
 					}
-					dest := dbuf[:size]
-					for j := range dest {
-						dest[j] = 0xA5
-					}
-					rr, errno := doRead(handles[h], dest, off)
-					res.errno = errno
-					if errno == 0 && rr != nil {
-						b, st := rr.Bytes(bbuf[:size])
-						if st != fuse.OK {
-							res.errno = syscall.Errno(st)
-						}
-						res.data = append([]byte(nil), b...)
-						rr.Done()
-					}
-				}()
-				mu.Lock()
-				res.fault = faultBy[me] > before
-				mu.Unlock()
-			}
-		}(perG[g])
+					res.done = true
+					mu.Unlock()
+				}
+			}(perG[g])
+		}
+		close(start)
+		wg.Wait()
 	}
-	close(start)
-	wg.Wait()
-	store.OnCall = nil
 
-	// faults delivered on goroutines that are not readers cannot be attributed
+	var pending []int
+	for i, r := range c.Fuse {
+		switch r.Op {
+		case "damage", "heal":
+			if len(pending) > 0 {
+				runGroup(pending)
+				pending = nil
+			}
+			if r.V < 0 || r.V >= len(l.spans) || l.badID(l.ids[r.V]) {
+				continue
+			}
+			sp := l.spans[r.V]
+			real := l.blob[sp.Start : sp.Start+sp.Len]
+			if r.Op == "heal" {
+				delete(damagedNow, l.ids[r.V])
+				store.Put(l.ids[r.V], real)
+			} else {
+				damagedNow[l.ids[r.V]] = true
+				store.Put(l.ids[r.V], damagedData(real, r.Kind))
+				fl.class("damage:wrong-length")
+			}
+		default:
+			pending = append(pending, i)
+		}
+	}
+	if len(pending) > 0 {
+		runGroup(pending)
+	}
+
+	// failures handed to goroutines that are not readers cannot be attributed
 	readers := map[uint64]bool{}
 	for _, r := range results {
 		readers[r.gid] = true
 	}
 	loose := false
-	delivered := 0
+	delivered, dmgDelivered := 0, 0
 	for g, n := range faultBy {
 		delivered += n
 		if !readers[g] {
 			loose = true
 		}
 	}
-	if delivered > 0 {
+	for _, n := range dmgBy {
+		dmgDelivered += n
+	}
+	if delivered > dmgDelivered {
 		fl.class("fuse:fault-delivered")
+	}
+	if dmgDelivered > 0 {
+		fl.class("fuse:damage-delivered")
 	}
 
 	var vs []fuseVerdict
 	faultSeen := false
-	for i, r := range c.Fuse {
-		res := results[i]
-		size := max(0, r.Size)
-		off := max(0, r.Off)
-		if res.panicky != nil {
-			vs = append(vs, fuseVerdict{i, psig, fmt.Sprintf("fuse read %d (off %d, size %d, handle %d, goroutine %d) panicked: %v", i, off, size, r.H, r.G, res.panicky)})
-			continue
-		}
-		if res.fault && res.errno == 0 && off <= l.length {
-			// the design asks for an error status; complete and correct data is tolerated by judgeFuse
-			fl.class("fuse:fault-but-ok")
-		}
-		if sig, msg := judgeFuse(l, off, size, res.errno, res.data, res.fault, loose); sig != "" {
-			vs = append(vs, fuseVerdict{i, sig, fmt.Sprintf("fuse read %d (handle %d, goroutine %d): %s", i, r.H, r.G, msg)})
-		}
-		if res.fault && res.errno != 0 {
-			fl.class("fuse:fault-surfaced")
-		}
-		if off > l.length {
-			fl.class("fuse:off-beyond")
-			continue
-		}
-		if off == l.length && size > 0 {
-			fl.class("fuse:at-eof")
-		}
-		if off < l.length && off+int64(size) > l.length {
-			fl.class("fuse:straddles-eof")
-		}
-		if res.errno == 0 && len(res.data) > 0 {
-			first, last := l.chunkAt(off), l.chunkAt(off+int64(len(res.data))-1)
-			if last > first {
-				fl.class("fuse:spans-chunks")
-				for k := first; k <= last; k++ {
-					if l.null[k] {
-						fl.class("fuse:crosses-null")
-						nontrivial = true
-						break
+	lost := map[int]int{} // handle -> first request group in which it accepted an unreadable entry (its cursor is meaningless from then on)
+	for pass := 0; pass < 2; pass++ {
+		for i, r := range c.Fuse {
+			res := results[i]
+			if !res.done && res.panicky == nil {
+				continue // a barrier
+			}
+			h := hOf(r)
+			size := max(0, r.Size)
+			off := max(0, r.Off)
+			wantLen := min(int64(size), max(l.length-off, 0))
+			reachesBad := off <= l.length && l.readable(off, wantLen) < wantLen
+			if pass == 0 { // find the handles that went astray on an unreadable entry
+				if reachesBad && (res.panicky != nil || res.errno == 0) {
+					if g, ok := lost[h]; !ok || res.group < g {
+						lost[h] = res.group
 					}
 				}
+				continue
 			}
-			if faultSeen && active == 1 {
-				fl.class("fuse:read-after-fault")
+			if reachesBad {
+				fl.class("read:mis-sized-entry")
+				switch {
+				case res.panicky != nil:
+					vs = append(vs, fuseVerdict{i, "C09:fuse:mis-sized-entry-panic", fmt.Sprintf("fuse read %d (off %d, size %d, handle %d) reaches an index entry whose size differs from its chunk and panicked: %v", i, off, size, r.H, res.panicky)})
+				case res.errno == 0:
+					vs = append(vs, fuseVerdict{i, "C09:fuse:mis-sized-entry-accepted", fmt.Sprintf("fuse read %d (off %d, size %d, handle %d) reaches index entry %d whose size differs from the chunk stored under its ID, but status OK with %d bytes",
+						i, off, size, r.H, l.chunkAt(off+l.readable(off, wantLen)), len(res.data))})
+				}
+				continue
+			}
+			if g, ok := lost[h]; ok && res.group >= g {
+				continue
+			}
+			if res.panicky != nil {
+				vs = append(vs, fuseVerdict{i, psig, fmt.Sprintf("fuse read %d (off %d, size %d, handle %d, goroutine %d) panicked: %v", i, off, size, r.H, r.G, res.panicky)})
+				continue
+			}
+			if res.fault && res.errno == 0 && off <= l.length {
+				// the design asks for an error status; complete and correct data is tolerated by judgeFuse
+				fl.class("fuse:fault-but-ok")
+			}
+			if sig, msg := judgeFuse(l, off, size, res.errno, res.data, res.fault, loose); sig != "" {
+				switch sig {
+				case "C09:fuse:wrong-bytes", "C09:fuse:short-read", "C09:fuse:long-read", "C09:fuse:store-error-as-short-read":
+					if res.dmg {
+						sig = "C09:fuse:damaged-chunk-served"
+					} else if res.reread || res.rereadHeal {
+						sig = "C09:fuse:refused-chunk-served"
+					}
+				}
+				vs = append(vs, fuseVerdict{i, sig, fmt.Sprintf("fuse read %d (handle %d, goroutine %d): %s", i, r.H, r.G, msg)})
+			}
+			if res.fault && res.errno != 0 {
+				fl.class("fuse:fault-surfaced")
+			}
+			if res.reread {
+				fl.class("fuse:reread-after-refusal")
 				nontrivial = true
 			}
-		}
-		if res.fault {
-			faultSeen = true
+			if res.rereadHeal && res.errno == 0 && !res.dmg {
+				fl.class("fuse:reread-after-heal")
+				nontrivial = true
+			}
+			if off > l.length {
+				fl.class("fuse:off-beyond")
+				continue
+			}
+			if off == l.length && size > 0 {
+				fl.class("fuse:at-eof")
+			}
+			if off < l.length && off+int64(size) > l.length {
+				fl.class("fuse:straddles-eof")
+			}
+			if res.errno == 0 && len(res.data) > 0 && int64(len(res.data)) <= wantLen {
+				first, last := l.chunkAt(off), l.chunkAt(off+int64(len(res.data))-1)
+				if last > first {
+					fl.class("fuse:spans-chunks")
+					for k := first; k <= last; k++ {
+						if l.null[k] {
+							fl.class("fuse:crosses-null")
+							nontrivial = true
+							break
+						}
+					}
+				}
+				if faultSeen && !res.concurrent {
+					fl.class("fuse:read-after-fault")
+					nontrivial = true
+				}
+			}
+			if res.fault {
+				faultSeen = true
+			}
 		}
 	}
 	sort.Slice(vs, func(a, b int) bool { return vs[a].idx < vs[b].idx })
@@ -680,7 +922,10 @@ func runCat(fl *failer, c Case, l *layout, idx desync.Index, bin string) {
 	if err != nil {
 		panic(err)
 	}
-	for _, s := range l.spans {
+	for i, s := range l.spans {
+		if l.bad[i] {
+			continue
+		}
 		if err := ls.StoreChunk(desync.NewChunk(append([]byte(nil), l.blob[s.Start:s.Start+s.Len]...))); err != nil {
 			panic(fmt.Sprintf("harness: StoreChunk: %v", err))
 		}
@@ -776,6 +1021,17 @@ func runCat(fl *failer, c Case, l *layout, idx desync.Index, bin string) {
 			reason = "a chunk file is missing from the store"
 		}
 		got := stdout.Bytes()
+		if lim := l.readable(off, int64(len(want))); off <= l.length && lim < int64(len(want)) {
+			// the range reaches an index entry whose size differs from its chunk: cat must fail after the bytes before it
+			fl.class("cat:mis-sized-entry")
+			want = want[:lim]
+			if exit == 0 || len(got) > len(want) {
+				fl.fail("C09:cat:mis-sized-entry-accepted", "%s reaches index entry %d whose size differs from the chunk stored under its ID after %d bytes: exit %d, stdout %d bytes", desc, l.chunkAt(off+lim), lim, exit, len(got))
+			} else if !bytes.Equal(got, want[:len(got)]) {
+				fl.fail("C09:cat:wrong-bytes", "%s exit %d, stdout (%d bytes) is not a prefix of the expected bytes; stderr: %s", desc, exit, len(got), tail)
+			}
+			continue
+		}
 		if exit == 0 {
 			if !bytes.Equal(got, want) {
 				sig := "C09:cat:wrong-bytes"
@@ -805,6 +1061,9 @@ func runCat(fl *failer, c Case, l *layout, idx desync.Index, bin string) {
 func run(c Case) (o hx.Outcome) {
 	l := build(c)
 	idx := dx.BuildIndex(l.blob, l.spans, l.sizes, false)
+	for i := range idx.Chunks {
+		idx.Chunks[i].ID = l.ids[i] // differs from the digest of the range for a Twin entry only
+	}
 	fl := newFailer(&o)
 
 	nulls, nullRun, oneByte, repeated := 0, false, false, false
@@ -852,13 +1111,39 @@ func run(c Case) (o hx.Outcome) {
 	store := dx.NewMemStore("c09")
 	store.FaultErr = faultErrOf(c.FaultErr)
 	fl.class(fmt.Sprintf("fault-error-kind:%d", c.FaultErr%6))
-	dx.FillStore(store, l.blob, idx)
+	store.SkipVerify = !c.Verify
+	fillStore(store, &l)
+	if c.Verify {
+		fl.class("store:verifying")
+	}
+	if c.Twin != nil && len(l.bad) > 0 {
+		for i, b := range l.bad {
+			if b {
+				fl.class("index:same-id-other-size")
+				if (i > 0 && l.ids[i-1] == l.ids[i]) || (i+1 < len(l.ids) && l.ids[i+1] == l.ids[i]) {
+					fl.class("index:same-id-other-size:adjacent")
+				}
+			}
+		}
+	}
 	var rs *desync.IndexPos
 	psig := panicSig("readseeker", &l)
 	guard(fl, psig, "NewIndexReadSeeker", func() { rs = desync.NewIndexReadSeeker(idx, store) })
 	var st rsStats
 	if rs != nil {
-		guard(fl, psig, "Seek/Read history", func() { st = checkReadSeeker(fl, rs, &l, c.Ops, memFaults{store}) })
+		func() {
+			defer func() {
+				if r := recover(); r != nil {
+					sig := psig
+					if fl.inBadRead {
+						sig = "C09:readseeker:mis-sized-entry-panic"
+					}
+					fl.fail(sig, "Seek/Read history panicked: %v", r)
+				}
+			}()
+			st = checkReadSeeker(fl, rs, &l, c.Ops, newMemFaults(store))
+		}()
+		store.OnCall = nil
 	}
 
 	// --- FUSE section
@@ -871,7 +1156,7 @@ func run(c Case) (o hx.Outcome) {
 
 	o.Nontrivial = st.nontrivial || fuseNontrivial
 	o.Desc = map[string]any{"blob": len(l.blob), "chunks": len(l.spans), "max": l.sizes.Max, "nulls": nulls, "tiled": c.Tiling != nil,
-		"ops": len(c.Ops), "fuse_reads": len(c.Fuse), "handles": c.Handles, "goroutines": c.Goroutines, "fuse_faults": len(c.FuseFail), "cat": len(c.Cat)}
+		"ops": len(c.Ops), "fuse_reads": len(c.Fuse), "handles": c.Handles, "goroutines": c.Goroutines, "fuse_faults": len(c.FuseFail), "cat": len(c.Cat), "twin": c.Twin != nil, "verify": c.Verify}
 	if b, err := json.Marshal(c); err == nil {
 		o.Key = hx.Hash8(b) + fmt.Sprint(len(b))
 	}
@@ -879,6 +1164,15 @@ func run(c Case) (o hx.Outcome) {
 		o.Observed = st.trace
 	}
 	return o
+}
+
+// fillStore puts the chunk of every readable index entry into s.
+func fillStore(s *dx.MemStore, l *layout) {
+	for i, sp := range l.spans {
+		if !l.bad[i] {
+			s.Put(l.ids[i], l.blob[sp.Start:sp.Start+sp.Len])
+		}
+	}
 }
 
 // faultErrOf maps Case.FaultErr to the error an injected store failure returns.
